@@ -18,7 +18,7 @@ def configs(tier):
     def add(C, D, b, c, form, upd, split, mp, reseed=0, iface=0, **kw):
         cs.append(Config('c%dd%d-b%dc%d-%s-upd%d%s%s%s' % (C, D, b, c, 'log' if form else 'reg', upd, '-split%d' % split if split else '', '-reseed%d' % reseed if reseed else '', '-capi' if iface else ''), 'C15', [C, D, b, c, form, upd, split, reseed, iface], max_paths=mp, strategy='tree', solver_timeout_ms=10000, **kw))
     if tier == 'quick':
-        add(2, 1, 0, 1, 0, 0, 0, 120); add(2, 1, 0, 1, 1, 0, 0, 60); add(3, 1, 0, 1, 0, 0, 0, 60); add(2, 2, 1, 1, 0, 3, 0, 40); add(2, 1, 0, 2, 0, 0, 1, 40); add(2, 1, 0, 2, 1, 1, 0, 40, iface=1); add(2, 1, 0, 1, 0, 3, 0, 30, iface=1); add(2, 1, 1, 1, 1, 0, 1, 30, iface=1); add(2, 1, 0, 2, 0, 0, 1, 30, reseed=2); add(2, 1, 0, 2, 1, 0, 1, 30, reseed=1); add(2, 1, 0, 1, 0, 1, 0, 30); add(2, 1, 0, 1, 1, 2, 0, 30)
+        add(2, 1, 0, 1, 0, 0, 0, 120); add(2, 1, 0, 1, 1, 0, 0, 60); add(3, 1, 0, 1, 0, 0, 0, 60); add(2, 2, 1, 1, 0, 3, 0, 40); add(2, 1, 0, 2, 0, 0, 1, 40); add(3, 1, 0, 2, 0, 2, 1, 40); add(3, 1, 1, 2, 1, 2, 1, 30); add(2, 1, 0, 2, 1, 1, 0, 40, iface=1); add(2, 1, 0, 1, 0, 3, 0, 30, iface=1); add(2, 1, 1, 1, 1, 0, 1, 30, iface=1); add(2, 1, 0, 2, 0, 0, 1, 30, reseed=2); add(2, 1, 0, 2, 1, 0, 1, 30, reseed=1); add(2, 1, 0, 1, 0, 1, 0, 30); add(2, 1, 0, 1, 1, 2, 0, 30)
     else:
         add(2, 1, 0, 1, 0, 0, 0, 4000); add(2, 1, 0, 1, 1, 0, 0, 4000)
         add(3, 1, 0, 1, 0, 0, 0, 1500); add(3, 2, 0, 1, 1, 0, 0, 800)
